@@ -705,7 +705,9 @@ def setter_pairs(case):
             return [{"constants_for_params": c, "country_data": row.copy(), "time_consts": {}, "time_consts_for_params": {}}.get(p, c) for p in params]
 
         def flags_of(obj):
-            return {k: v for k, v in obj.__dict__.items() if k.endswith("_SET")}
+            # everything the loader remembers (the *_SET flags and whatever else it records, e.g. the scale it was set up for)
+            return {k: (v if isinstance(v, (bool, int, float, str, type(None))) else repr(v)[:80]) for k, v in obj.__dict__.items()
+                    if k != "scenario_description"}  # (the human-readable run description is appended to before the checks; it decides nothing)
 
         f0 = flags_of(s)
         try:
@@ -756,6 +758,24 @@ def setter_pairs(case):
                 cx.n["bare_loader_calls_skipped"] += 1
             else:
                 cx.n["accepted_on_bare_loader"] += 1
+    # the scale family: a second attempt (same or other scale) is refused and leaves the loader exactly as it was - what it
+    # recorded about the scale decides which values of other families it accepts afterwards
+    if case["shard"] == 0:
+        for first in ("country", "global"):
+            for second in ("country", "global"):
+                s = Scenarios()
+                init = {"country": lambda: s.init_country_food_system_properties(row.copy()), "global": lambda: s.init_global_food_system_properties()}
+                init[first]()
+                before = {k: (v if isinstance(v, (bool, int, float, str, type(None))) else repr(v)[:80]) for k, v in s.__dict__.items() if k != "scenario_description"}
+                cx.n["scale_set_twice"] += 1
+                try:
+                    init[second]()
+                    cx.bad("option_family_set_twice", "scale set as %s and then as %s: both accepted" % (first, second), first=first, second=second, flag="SCALE_SET")
+                except AssertionError:
+                    after = {k: (v if isinstance(v, (bool, int, float, str, type(None))) else repr(v)[:80]) for k, v in s.__dict__.items() if k != "scenario_description"}
+                    if after != before:
+                        ch = sorted(k for k in set(before) | set(after) if before.get(k) != after.get(k))
+                        cx.bad("refused_setter_marks_family_as_set", "scale=%s refused after scale=%s but left %s changed on the loader" % (second, first, ch), setter="scale:" + second, first="scale:" + first, flags=ch)
     # every family flag must be required by check_all_set
     flags = sorted({fl[0] for fl, p, g in fams.values() if len(fl) == 1})
     for fl in flags:
